@@ -103,7 +103,7 @@ func c20WantOf(table string, fs []c20Field, old map[string]bool) c20Want {
 		colOf[f.Name] = c20ColName(f.Name, f.Tag)
 	}
 	for pos, f := range fs {
-		if f.Kind == "audit" {
+		if f.Kind == "audit" || c20Embeds(f.Kind) {
 			continue
 		}
 		if f.Kind == "stamp" { // C20Stamp: Serial `unique`, Batch `index`, behind the embeddedPrefix (DBName != field name)
@@ -341,6 +341,18 @@ func c20SameCols(a, b []string, ordered bool) bool {
 	return true
 }
 
+func c20DedupCols(cols []string) []string {
+	seen := map[string]bool{}
+	var out []string
+	for _, c := range cols {
+		if !seen[strings.ToLower(c)] {
+			seen[strings.ToLower(c)] = true
+			out = append(out, c)
+		}
+	}
+	return out
+}
+
 func c20Squash(s string) string {
 	return strings.ToLower(strings.Join(strings.Fields(s), " "))
 }
@@ -386,7 +398,8 @@ func c20JudgeStructure(db *gorm.DB, rec *Recorder, table string, w c20Want, fina
 		}
 		found := false
 		for _, h := range have {
-			if h.Unique == wi.Unique && c20SameCols(h.Cols, wi.Cols, wi.Ordered) && (wi.Constr || h.Origin == "c") {
+			// (latitude: a column listed twice in one index — two struct fields sharing the column both carry the tag — counts once)
+			if h.Unique == wi.Unique && c20SameCols(c20DedupCols(h.Cols), wi.Cols, wi.Ordered) && (wi.Constr || h.Origin == "c") {
 				found = true
 			}
 		}
@@ -492,6 +505,9 @@ func c20JudgeAsk(db *gorm.DB, model interface{}, w c20Want, final bool, noRelFK 
 	for name, u := range sch.ParseUniqueConstraints() {
 		if u.Field != nil && u.Field.PrimaryKey {
 			continue
+		}
+		if u.Field != nil && sch.FieldsByDBName[u.Field.DBName] != u.Field {
+			continue // the tag sits on a field that lost its column to another field: nothing of that field is migrated (F33 area)
 		}
 		if !final && u.Field != nil && late[u.Field.DBName] {
 			continue
